@@ -141,7 +141,10 @@ def run_optimized_companion(ctx, prop, args):
             try:
                 p = subprocess.run([sys.executable, "-O", "-B", "-m", "egverif.cli", prop, "--tier", args.tier,
                                     "--seed", str(args.seed), "--shard", "1/3", "--scale", "0.3", "--state-out", out],
-                                   stdout=lf, stderr=subprocess.STDOUT, timeout=WATCHDOG[args.tier] // 2)
+                                   stdout=lf, stderr=subprocess.STDOUT, timeout=WATCHDOG[args.tier] // 2,
+                                   # ... and with another string-hash seed than the main run's 0 (set / dict order of
+                                   # strings is part of the interpreter's configuration too)
+                                   env=dict(os.environ, PYTHONHASHSEED=str(1 + args.seed % 1000)))
                 rc = p.returncode
             except subprocess.TimeoutExpired:
                 rc = -1
